@@ -912,7 +912,7 @@ theorem processBlock_micro (s : State) (b : Header) (hp : Pre U Vp s) (hb : HdrO
 /-! ### `authVerification` -/
 
 def hasVote (target : Ckpt) (src order : Nat) : Bool :=
-  match findLink target.sup src with | some l => hasSlot l order | none => false
+  target.sup.any (fun l => l.src == src && hasSlot l order)
 
 /-- `saveVerificationToHeader` + `tryRollback` -/
 def authTail (s : State) (order src tgt : Nat) (sigOk : Bool) (source : CkptRec) (tree' : Tree) (srcs : List CkptRec) : State × Res :=
